@@ -63,6 +63,13 @@ func ChildMain(jobFile, outFile string) {
 		default:
 			r = Stress(j.Seed, j.Prog)
 		}
+		if d := os.Getenv("VERIF_DUMP_EVENTS"); d != "" && len(r.Violations) > 0 {
+			f, _ := os.Create(fmt.Sprintf("%s/events-%d-%d.txt", d, os.Getpid(), j.ID))
+			for _, e := range r.Events {
+				fmt.Fprintf(f, "%d g%d %s %s %v\n", e.Seq, e.G, e.Role, e.Point, e.Args)
+			}
+			f.Close()
+		}
 		enc.Encode(JobResult{ID: j.ID, Res: r})
 	}
 }
